@@ -24,7 +24,7 @@ def Ev.isSeenOf (j : Nat) : Ev → Bool
 
 /-- Events that the accounting invariants talk about. -/
 def Ev.relevant : Ev → Bool
-  | .started _ | .skipped _ _ | .ended _ _ | .resultSeen _ _ | .cancelled => true
+  | .started _ | .skipped _ _ | .ended _ _ | .resultSeen _ _ | .cancelled _ => true
   | _ => false
 
 /-- Result `r` for job `j` is backed by a worker's decision recorded in the log. -/
@@ -71,8 +71,8 @@ structure Inv6 (c : Cfg) (s : State) : Prop where
       Produced j r s.log ∧ (job s.loop j).done = true ∧ (job s.loop j).failed = r.isErr
   seenOnce : ∀ j, s.log.countP (Ev.isSeenOf j) ≤ 1
   doneSeen : ∀ j, (job s.loop j).done = true → ∃ r, Ev.resultSeen j r ∈ s.log
-  cancelLog : s.cancelled = true → Ev.cancelled ∈ s.log
-  skipCtx : ∀ j, Ev.skipped j .ctx ∈ s.log → Ev.cancelled ∈ s.log
+  cancelLog : ∀ x, s.cancelledCtx x = true → Ev.cancelled x ∈ s.log
+  skipCtx : ∀ j, Ev.skipped j .ctx ∈ s.log → Ev.cancelled (c.ctxOfJob j) ∈ s.log
   decDisp : ∀ j, 0 < s.log.countP (Ev.decides j) → (job s.loop j).dispatched = true
 
 theorem inv6_init (c : Cfg) : Inv6 c (init c) := by
@@ -88,7 +88,7 @@ theorem inv6_init (c : Cfg) : Inv6 c (init c) := by
   · intro j r h; simp [init] at h
   · intro j; simp [init]
   · intro j h; simp [init, job, getJob] at h
-  · intro h; simp [init] at h
+  · intro x h; simp [init] at h
   · intro j h; simp [init] at h
   · intro j h; simp [init] at h
 
@@ -99,12 +99,12 @@ theorem countP_append_irrelevant {p : Ev → Bool} {log es : List Ev} (h : ∀ e
     rw [List.countP_eq_zero]; intro e he; simp [h e he]
   omega
 
-/-- Frame: `ws`, `donec`, `cancelled`, `done/failed` flags unchanged; only irrelevant events logged. -/
+/-- Frame: `ws`, `donec`, `doneCtx`, `done/failed` flags unchanged; only irrelevant events logged. -/
 theorem inv6_frame {c : Cfg} {s s' : State} {es : List Ev} (h : Inv6 c s)
     (hdone : ∀ k, (job s'.loop k).done = (job s.loop k).done)
     (hfailed : ∀ k, (job s'.loop k).failed = (job s.loop k).failed)
     (hdisp : ∀ k, (job s'.loop k).dispatched = (job s.loop k).dispatched)
-    (hws : s'.ws = s.ws) (hdc : s'.donec = s.donec) (hcan : s'.cancelled = s.cancelled)
+    (hws : s'.ws = s.ws) (hdc : s'.donec = s.donec) (hcan : s'.doneCtx = s.doneCtx)
     (hlog : s'.log = s.log ++ es) (hes : ∀ e ∈ es, e.relevant = false) : Inv6 c s' := by
   obtain ⟨g1, g2, g3, g4, g5, g6, g7, g8, g9, g10, g11, g12, g13, g14⟩ := h
   have irr : ∀ (p : Ev → Bool), (∀ e, p e = true → e.relevant = true) → ∀ e ∈ es, p e = false := by
@@ -138,7 +138,7 @@ theorem inv6_frame {c : Cfg} {s s' : State} {es : List Ev} (h : Inv6 c s)
     exact ⟨by rw [hlog]; exact a.mono, by rw [hdone]; exact b, by rw [hfailed]; exact d⟩
   · intro j; rw [hlog, countP_append_irrelevant (hseen j)]; exact g10 j
   · intro j hd; rw [hdone] at hd; obtain ⟨r, hr⟩ := g11 j hd; exact ⟨r, by rw [hlog]; exact List.mem_append_left _ hr⟩
-  · intro hc; rw [hcan] at hc; rw [hlog]; exact List.mem_append_left _ (g12 hc)
+  · intro x hc; simp only [State.cancelledCtx, hcan] at hc; rw [hlog]; exact List.mem_append_left _ (g12 x hc)
   · intro j hm; rw [hlog]; exact List.mem_append_left _ (g13 j (nomem _ rfl hm))
 
   · intro j hp; rw [hlog, countP_append_irrelevant (hdec j)] at hp; rw [hdisp]; exact g14 j hp
@@ -197,7 +197,7 @@ theorem inv6_frame_ws {c : Cfg} {s s' : State} {es : List Ev} {w : Nat} {x y : W
     (hfailed : ∀ k, (job s'.loop k).failed = (job s.loop k).failed)
     (hdisp : ∀ k, (job s.loop k).dispatched = true → (job s'.loop k).dispatched = true)
     (hws : s'.ws = s.ws.set w y) (hdc : ∀ e, e ∈ s'.donec → e ∈ s.donec ∨ Produced e.1 e.2 s'.log)
-    (hcan : s'.cancelled = true → s.cancelled = true ∨ Ev.cancelled ∈ es)
+    (hcan : ∀ x, s'.cancelledCtx x = true → s.cancelledCtx x = true ∨ Ev.cancelled x ∈ es)
     (hlog : s'.log = s.log ++ es)
     (hdecs : ∀ j, (∀ e ∈ es, Ev.decides j e = false) ∨
         (s.log.countP (Ev.decides j) = 0 ∧ es.countP (Ev.decides j) ≤ 1 ∧ (job s'.loop j).dispatched = true ∧
@@ -206,7 +206,7 @@ theorem inv6_frame_ws {c : Cfg} {s s' : State} {es : List Ev} {w : Nat} {x y : W
         (s.log.countP (Ev.isEndedOf j) = 0 ∧ es.countP (Ev.isEndedOf j) ≤ 1 ∧ Ev.started j ∈ s.log ∧
           (∀ (w' k : Nat), w' ≠ w → s.ws[w']? = some (W.running k) → k ≠ j)))
     (hseen : ∀ e ∈ es, ∀ j, Ev.isSeenOf j e = false)
-    (hskip : ∀ j, Ev.skipped j .ctx ∈ es → Ev.cancelled ∈ s.log)
+    (hskip : ∀ j, Ev.skipped j .ctx ∈ es → Ev.cancelled (c.ctxOfJob j) ∈ s.log)
     (hyH : ∀ j, y = W.holding j → s'.log.countP (Ev.decides j) = 0)
     (hyR : ∀ j, y = W.running j → Ev.started j ∈ s'.log ∧ s'.log.countP (Ev.isEndedOf j) = 0)
     (hyP : ∀ j r, y = W.posting j r → Produced j r s'.log)
@@ -271,10 +271,10 @@ theorem inv6_frame_ws {c : Cfg} {s s' : State} {es : List Ev} {w : Nat} {x y : W
   · intro j; rw [hlog, countP_append_irrelevant (seenIrr j)]; exact g10 j
   · intro j hd; rw [hdone] at hd; obtain ⟨r, hr⟩ := g11 j hd
     exact ⟨r, by rw [hlog]; exact List.mem_append_left _ hr⟩
-  · intro hc
+  · intro x hc
     rw [hlog]
-    rcases hcan hc with hc | hc
-    · exact List.mem_append_left _ (g12 hc)
+    rcases hcan x hc with hc | hc
+    · exact List.mem_append_left _ (g12 x hc)
     · exact List.mem_append_right _ hc
   · intro j hm
     rw [hlog] at hm ⊢
@@ -307,7 +307,7 @@ theorem inv6_step {c : Cfg} (hw : c.wiring = Wiring.std) (hwf : WfCfg c) {s s' :
     exact inv6_frame (es := [Ev.waitReturned [.ctxErr]]) h (fun _ => rfl) (fun _ => rfl) (fun _ => rfl) rfl rfl rfl rfl (by simp [Ev.relevant])
   | callerRetFin =>
     obtain ⟨_, _, _, rfl⟩ := inv_callerRetFin hs
-    exact inv6_frame (es := [Ev.waitReturned (retVal s)]) h (fun _ => rfl) (fun _ => rfl) (fun _ => rfl) rfl rfl rfl rfl (by simp [Ev.relevant])
+    exact inv6_frame (es := [Ev.waitReturned (retVal c s)]) h (fun _ => rfl) (fun _ => rfl) (fun _ => rfl) rfl rfl rfl rfl (by simp [Ev.relevant])
   | loopEnqClosed =>
     obtain ⟨_, _, _, _, rfl⟩ := inv_loopEnqClosed hs
     exact inv6_frame (es := []) h (by simp [closed, job]) (by simp [closed, job]) (by simp [closed, job]) rfl rfl rfl (by simp) (by simp)
@@ -330,10 +330,10 @@ theorem inv6_step {c : Cfg} (hw : c.wiring = Wiring.std) (hwf : WfCfg c) {s s' :
     obtain ⟨_, fdone, ffailed, fdisp, _⟩ := enq_fields (c := c) (l := s.loop) hlate (hwf.2 _)
     exact inv6_frame (es := [Ev.registered s.loop.jobs.length]) h (by simpa using fdone) (by simpa using ffailed)
       (by simpa using fdisp) rfl rfl rfl rfl (by simp [Ev.relevant])
-  | cancel =>
-    obtain ⟨_, rfl⟩ := inv_cancel hs
+  | cancel x =>
+    obtain ⟨_, _, rfl⟩ := inv_cancel hs
     obtain ⟨g1, g2, g3, g4, g5, g6, g7, g8, g9, g10, g11, g12, g13, g14⟩ := h
-    have irr : ∀ (p : Ev → Bool), p Ev.cancelled = false → ∀ e ∈ [Ev.cancelled], p e = false := by
+    have irr : ∀ (p : Ev → Bool), p (Ev.cancelled x) = false → ∀ e ∈ [Ev.cancelled x], p e = false := by
       intro p hp e he; simp at he; subst he; exact hp
     refine ⟨?_, ?_, ?_, ?_, ?_, ?_, ?_, ?_, ?_, ?_, ?_, ?_, ?_, ?_⟩
     · intro w j hj; simp only [addLog_log]; rw [countP_append_irrelevant (irr _ rfl)]; exact g1 w j hj
@@ -354,7 +354,11 @@ theorem inv6_step {c : Cfg} (hw : c.wiring = Wiring.std) (hwf : WfCfg c) {s s' :
       · simp at hm
     · intro j; simp only [addLog_log]; rw [countP_append_irrelevant (irr _ rfl)]; exact g10 j
     · intro j hd; obtain ⟨r, hr⟩ := g11 j hd; exact ⟨r, by simp only [addLog_log]; exact List.mem_append_left _ hr⟩
-    · intro _; simp only [addLog_log]; simp
+    · intro y hc; simp only [addLog_log]
+      simp at hc
+      rcases hc with rfl | hc
+      · simp
+      · exact List.mem_append_left _ (g12 y hc)
     · intro j hm; simp only [addLog_log] at hm ⊢
       rcases List.mem_append.mp hm with hm | hm
       · exact List.mem_append_left _ (g13 j hm)
@@ -369,7 +373,7 @@ theorem inv6_step {c : Cfg} (hw : c.wiring = Wiring.std) (hwf : WfCfg c) {s s' :
       · exact h0
       · have := h.decDisp j h0; simp [hjnd] at this
     refine inv6_frame_ws (es := [Ev.dispatched j]) (w := w) (x := W.idle) (y := W.holding j) h hidle
-      (by simpa using fdone) (by simpa using ffailed) ?_ rfl (fun e he => Or.inl he) (fun hc => Or.inl hc) rfl
+      (by simpa using fdone) (by simpa using ffailed) ?_ rfl (fun e he => Or.inl he) (fun _ hc => Or.inl hc) rfl
       (fun k => Or.inl (by simp [Ev.decides])) (fun k => Or.inl (by simp [Ev.isEndedOf])) (by simp [Ev.isSeenOf])
       (by simp) ?_ (by simp) (by simp) (by simp)
     · intro k hk; simp only [addLog_loop, setW_loop, exitCheck_job, fdisp]; simp [hk]
@@ -404,15 +408,15 @@ theorem inv6_step {c : Cfg} (hw : c.wiring = Wiring.std) (hwf : WfCfg c) {s s' :
         exact decides_ne he hk
     rcases hcases with ⟨hcan, rfl⟩ | ⟨_, _, rfl⟩ | ⟨_, _, rfl⟩
     · refine inv6_frame_ws (es := [Ev.skipped j .ctx]) (w := w) (x := W.holding j) (y := W.posting j .ctxErr) h hj
-        (fun _ => rfl) (fun _ => rfl) (fun _ hk => hk) rfl (fun e he => Or.inl he) (fun hc => Or.inl hc) rfl
+        (fun _ => rfl) (fun _ => rfl) (fun _ hk => hk) rfl (fun e he => Or.inl he) (fun _ hc => Or.inl hc) rfl
         (decs _ (by simp [Ev.decides])) (fun k => Or.inl (by simp [Ev.isEndedOf])) (by simp [Ev.isSeenOf])
-        (by intro k _; exact h.cancelLog hcan) (by simp) (by simp) ?_ (by simp)
+        (by intro k hk; simp at hk; subst hk; exact h.cancelLog _ hcan) (by simp) (by simp) ?_ (by simp)
       intro k r hk
       simp only [W.posting.injEq] at hk
       obtain ⟨rfl, rfl⟩ := hk
       exact Or.inr (Or.inl ⟨rfl, by simp⟩)
     · refine inv6_frame_ws (es := [Ev.skipped j .invalid]) (w := w) (x := W.holding j) (y := W.posting j .invalid) h hj
-        (fun _ => rfl) (fun _ => rfl) (fun _ hk => hk) rfl (fun e he => Or.inl he) (fun hc => Or.inl hc) rfl
+        (fun _ => rfl) (fun _ => rfl) (fun _ hk => hk) rfl (fun e he => Or.inl he) (fun _ hc => Or.inl hc) rfl
         (decs _ (by simp [Ev.decides])) (fun k => Or.inl (by simp [Ev.isEndedOf])) (by simp [Ev.isSeenOf])
         (by simp) (by simp) (by simp) ?_ (by simp)
       intro k r hk
@@ -420,7 +424,7 @@ theorem inv6_step {c : Cfg} (hw : c.wiring = Wiring.std) (hwf : WfCfg c) {s s' :
       obtain ⟨rfl, rfl⟩ := hk
       exact Or.inr (Or.inr ⟨rfl, by simp⟩)
     · refine inv6_frame_ws (es := [Ev.started j]) (w := w) (x := W.holding j) (y := W.running j) h hj
-        (fun _ => rfl) (fun _ => rfl) (fun _ hk => hk) rfl (fun e he => Or.inl he) (fun hc => Or.inl hc) rfl
+        (fun _ => rfl) (fun _ => rfl) (fun _ hk => hk) rfl (fun e he => Or.inl he) (fun _ hc => Or.inl hc) rfl
         (decs _ (by simp [Ev.decides])) (fun k => Or.inl (by simp [Ev.isEndedOf])) (by simp [Ev.isSeenOf])
         (by simp) (by simp) ?_ (by simp) (by simp)
       intro k hk
@@ -432,15 +436,20 @@ theorem inv6_step {c : Cfg} (hw : c.wiring = Wiring.std) (hwf : WfCfg c) {s s' :
     obtain ⟨j, hj, rfl⟩ := inv_workerEnd hs
     obtain ⟨_, _, huniq, _⟩ := holder_facts (j := j) h1 hj (by simp [W.job?])
     obtain ⟨hst, hnoEnd⟩ := h.runFresh w j hj
-    have hab : (afterBody s j o cancel).loop = s.loop ∧ (afterBody s j o cancel).ws = s.ws ∧
-        (afterBody s j o cancel).donec = s.donec ∧
-        ∃ es, (afterBody s j o cancel).log = s.log ++ (Ev.ended j o :: es) ∧ (es = [] ∨ es = [Ev.cancelled]) ∧
-          ((afterBody s j o cancel).cancelled = true → s.cancelled = true ∨ Ev.cancelled ∈ es) := by
+    have hab : (afterBody c s j o cancel).loop = s.loop ∧ (afterBody c s j o cancel).ws = s.ws ∧
+        (afterBody c s j o cancel).donec = s.donec ∧
+        ∃ es, (afterBody c s j o cancel).log = s.log ++ (Ev.ended j o :: es) ∧ (es = [] ∨ es = [Ev.cancelled (c.ctxOfJob j)]) ∧
+          (∀ x, (afterBody c s j o cancel).cancelledCtx x = true → s.cancelledCtx x = true ∨ Ev.cancelled x ∈ es) := by
       unfold afterBody; split
-      · exact ⟨rfl, rfl, rfl, [Ev.cancelled], by simp, Or.inr rfl, fun _ => Or.inr (by simp)⟩
-      · exact ⟨rfl, rfl, rfl, [], by simp, Or.inl rfl, fun hc => Or.inl (by simpa using hc)⟩
+      · refine ⟨rfl, rfl, rfl, [Ev.cancelled (c.ctxOfJob j)], by simp, Or.inr rfl, ?_⟩
+        intro x hc
+        simp at hc
+        rcases hc with rfl | hc
+        · exact Or.inr (by simp)
+        · exact Or.inl hc
+      · exact ⟨rfl, rfl, rfl, [], by simp, Or.inl rfl, fun x hc => Or.inl (by simpa using hc)⟩
     obtain ⟨hl, hws, hdc, es, hlog, hes, hcan⟩ := hab
-    have esIrr : ∀ (p : Ev → Bool), p Ev.cancelled = false → ∀ e ∈ es, p e = false := by
+    have esIrr : ∀ (p : Ev → Bool), p (Ev.cancelled (c.ctxOfJob j)) = false → ∀ e ∈ es, p e = false := by
       intro p hp e he
       rcases hes with rfl | rfl
       · simp at he
@@ -452,8 +461,8 @@ theorem inv6_step {c : Cfg} (hw : c.wiring = Wiring.std) (hwf : WfCfg c) {s s' :
         (y := if o = .goexit then W.dying j else W.posting j (outcomeRes o)) h hj
       (by simp [hl]) (by simp [hl]) (by intro k hk; simpa [hl] using hk) (by simp [hws])
       (by intro e he; simp [hdc] at he; exact Or.inl he) ?_ (by simp [hlog]) ?_ ?_ ?_ ?_ ?_ ?_ ?_ ?_
-    · intro hc; simp only [setW_cancelled] at hc
-      rcases hcan hc with hc | hc
+    · intro x hc; simp only [State.cancelledCtx, setW_doneCtx] at hc
+      rcases hcan x hc with hc | hc
       · exact Or.inl hc
       · exact Or.inr (by simp [hc])
     · intro k; left; intro e he
@@ -499,7 +508,7 @@ theorem inv6_step {c : Cfg} (hw : c.wiring = Wiring.std) (hwf : WfCfg c) {s s' :
     obtain ⟨j, r, hj, _, rfl⟩ := inv_workerPost hs
     have hprod := h.prodW w j r hj
     refine inv6_frame_ws (es := []) (w := w) (x := W.posting j r) (y := W.idle) h hj
-      (fun _ => rfl) (fun _ => rfl) (fun _ hk => hk) rfl ?_ (fun hc => Or.inl hc) (by simp)
+      (fun _ => rfl) (fun _ => rfl) (fun _ hk => hk) rfl ?_ (fun _ hc => Or.inl hc) (by simp)
       (fun k => Or.inl (by simp)) (fun k => Or.inl (by simp)) (by simp) (by simp) (by simp) (by simp) (by simp) (by simp)
     intro e he
     simp only [setW_donec] at he
@@ -510,7 +519,7 @@ theorem inv6_step {c : Cfg} (hw : c.wiring = Wiring.std) (hwf : WfCfg c) {s s' :
     obtain ⟨j, hj, _, rfl⟩ := inv_workerDiePost hw hs
     have hprod := h.prodDying w j hj
     refine inv6_frame_ws (es := []) (w := w) (x := W.dying j) (y := W.idle) h hj
-      (fun _ => rfl) (fun _ => rfl) (fun _ hk => hk) rfl ?_ (fun hc => Or.inl hc) (by simp)
+      (fun _ => rfl) (fun _ => rfl) (fun _ hk => hk) rfl ?_ (fun _ hc => Or.inl hc) (by simp)
       (fun k => Or.inl (by simp)) (fun k => Or.inl (by simp)) (by simp) (by simp) (by simp) (by simp) (by simp) (by simp)
     intro e he
     simp only [setW_donec] at he
@@ -521,7 +530,7 @@ theorem inv6_step {c : Cfg} (hw : c.wiring = Wiring.std) (hwf : WfCfg c) {s s' :
   | workerExit w =>
     obtain ⟨hj, _, rfl⟩ := inv_workerExit hs
     exact inv6_frame_ws (es := []) (w := w) (x := W.idle) (y := W.exited) h hj
-      (fun _ => rfl) (fun _ => rfl) (fun _ hk => hk) rfl (fun e he => Or.inl he) (fun hc => Or.inl hc) (by simp)
+      (fun _ => rfl) (fun _ => rfl) (fun _ hk => hk) rfl (fun e he => Or.inl he) (fun _ hc => Or.inl hc) (by simp)
       (fun k => Or.inl (by simp)) (fun k => Or.inl (by simp)) (by simp) (by simp) (by simp) (by simp) (by simp) (by simp)
   | loopResult =>
     obtain ⟨j, r, rest, hp, hdc, rfl⟩ := inv_loopResult hs
@@ -590,7 +599,7 @@ theorem inv6_step {c : Cfg} (hw : c.wiring = Wiring.std) (hwf : WfCfg c) {s s' :
       rcases hd with hd | hd
       · obtain ⟨r', hr'⟩ := g11 k hd; exact ⟨r', List.mem_append_left _ hr'⟩
       · subst hd; exact ⟨r, by simp⟩
-    · intro hc; exact List.mem_append_left _ (g12 hc)
+    · intro x hc; exact List.mem_append_left _ (g12 x hc)
     · intro k hm
       rcases List.mem_append.mp hm with hm | hm
       · exact List.mem_append_left _ (g13 k hm)
